@@ -232,6 +232,28 @@ type apiCase struct {
 	Args  []jval `json:"args"`
 	Alias bool   `json:"alias"` // after the op, mutate a list result and re-dump the operands
 	Iter  bool   `json:"iter"`  // also return list(iter(result))
+	Build string `json:"build"` // construction history of a list first operand: "" (from items), "append", "shrunk"
+}
+
+// rebuildList returns a list with the same items as l but another history (its backing array has spare capacity)
+func rebuildList(l *py.List, how string) (py.Object, error) {
+	nl := py.NewList()
+	for _, it := range l.Items {
+		nl.Append(it)
+	}
+	if how == "shrunk" {
+		n := len(l.Items)
+		for i := 0; i < 3; i++ {
+			nl.Append(py.Int(-100 - i))
+		}
+		if _, err := py.DelItem(nl, &py.Slice{Start: py.Int(n), Stop: py.None, Step: py.None}); err != nil {
+			return nil, err
+		}
+		if len(nl.Items) != n {
+			return nil, fmt.Errorf("harness: shrinking left %d items, want %d", len(nl.Items), n)
+		}
+	}
+	return nl, nil
 }
 
 func init() {
@@ -265,6 +287,15 @@ func apiHandler(raw json.RawMessage) map[string]interface{} {
 				return res
 			}
 			return map[string]interface{}{"harness_panic": "decode: " + err.Error()}
+		}
+		if c.Build != "" && len(args) == 0 {
+			if l, ok := v.(*py.List); ok {
+				nv, err := rebuildList(l, c.Build)
+				if err != nil {
+					return map[string]interface{}{"harness_panic": "build: " + err.Error()}
+				}
+				v = nv
+			}
 		}
 		args = append(args, v)
 	}
